@@ -452,7 +452,7 @@ func (vc *VC) check(st *State, fr *Frame, kind, clause string, tags []string, go
 
 // checkClause evaluates a clause in env, splitting conjunctions.
 func (vc *VC) checkClause(st *State, fr *Frame, env *SpecEnv, kind string, cl *Clause, prefix string, site token.Pos) {
-	parts := splitConj(cl.E)
+	parts := splitConj(vc.expandPreds(cl.E, 0))
 	for i, p := range parts {
 		name := prefix + cl.Name
 		if len(parts) > 1 {
@@ -585,6 +585,14 @@ func (vc *VC) runBlock(st *State, fr *Frame, b *ssa.BasicBlock, pred *ssa.BasicB
 			if li.kind == "rangeiter" {
 				if vis, ok := fr.visited[b]; ok {
 					fr.names[fmt.Sprintf("visited%d", li.ordinal)] = nameEntry{V: SetV{T: st.array(vis, vc.arrSorts[vis]), K: SInt}, T: &setType{K: tInt}}
+				}
+				// range<k>: the key set of the map when the range statement started
+				for _, in := range b.Instrs {
+					if nx, ok := in.(*ssa.Next); ok {
+						if it, ok := fr.env[nx.Iter].(MapIterV); ok {
+							fr.names[fmt.Sprintf("range%d", li.ordinal)] = nameEntry{V: SetV{T: it.D0, K: SInt}, T: &setType{K: tInt}}
+						}
+					}
 				}
 			}
 		}
@@ -1053,6 +1061,21 @@ func (vc *VC) modItemArrays(c *Contract, mi *ModItem) []string {
 			n, _ := vc.fieldArr(ownerKey(nt), l.Path, l)
 			out = append(out, n)
 		}
+		// ghost fields of the type as well
+		prefix := typeKey(nt) + "."
+		var gk []string
+		for k := range vc.gfields {
+			if strings.HasPrefix(k, prefix) {
+				gk = append(gk, k)
+			}
+		}
+		sort.Strings(gk)
+		for _, k := range gk {
+			g := vc.gfields[k]
+			name := "G_" + typeKey(nt) + "__" + g.Field
+			vc.arrSorts[name] = arrSort(SInt, ghostSort(g.GoTyp))
+			out = append(out, name)
+		}
 		return out
 	}
 	var ft types.Type
@@ -1083,6 +1106,12 @@ func (vc *VC) modItemArrays(c *Contract, mi *ModItem) []string {
 		}
 	case "elems":
 		s, ok := ft.Underlying().(*types.Slice)
+		if !ok {
+			// a map whose values are slices: the elements of those slices
+			if m, isMap := ft.Underlying().(*types.Map); isMap {
+				s, ok = m.Elem().Underlying().(*types.Slice)
+			}
+		}
 		if !ok {
 			panic(specErr{fmt.Sprintf("%s:%d: elems: field is not a slice", c.File, mi.Line)})
 		}
@@ -1354,6 +1383,7 @@ func (vc *VC) step(st *State, fr *Frame, in ssa.Instruction) bool {
 		}
 		loc := LocV{Obj: ref, Owner: ownerKey(el), Typ: el}
 		st.storeLoc(loc, st.zeroVal(el))
+		vc.initGhost(st, el, ref)
 		fr.env[x] = intv(ref)
 	case *ssa.FieldAddr:
 		base := vc.value(st, fr, x.X)
@@ -1423,16 +1453,16 @@ func (vc *VC) step(st *State, fr *Frame, in ssa.Instruction) bool {
 		tag := vc.typeID(x.X.Type())
 		switch p := v.(type) {
 		case Sc:
-			fr.env[x] = IfaceV{Tag: tag, Pay: p.T}
+			fr.env[x] = IfaceV{Tag: tag, Pay: p.T, Dyn: x.X.Type()}
 		case LocV:
 			if p.Prefix == "" && !p.Elem {
-				fr.env[x] = IfaceV{Tag: tag, Pay: p.Obj}
+				fr.env[x] = IfaceV{Tag: tag, Pay: p.Obj, Dyn: x.X.Type()}
 			} else {
-				fr.env[x] = IfaceV{Tag: tag, Pay: st.fresh("box", SInt)}
+				fr.env[x] = IfaceV{Tag: tag, Pay: st.fresh("box", SInt), Dyn: x.X.Type()}
 			}
 		default:
 			// boxed non-scalar: opaque payload
-			fr.env[x] = IfaceV{Tag: tag, Pay: st.fresh("box", SInt)}
+			fr.env[x] = IfaceV{Tag: tag, Pay: st.fresh("box", SInt), Dyn: x.X.Type()}
 		}
 	case *ssa.MakeClosure:
 		var free []Val
@@ -1518,6 +1548,10 @@ func (vc *VC) unop(st *State, fr *Frame, x *ssa.UnOp) bool {
 		v := st.loadLoc(loc, nil)
 		if fv, ok := v.(FuncV); ok {
 			fv.From = fieldFuncKey(x)
+			if fa, ok := x.X.(*ssa.FieldAddr); ok && !loc.Elem {
+				fv.Owner = loc.Obj
+				fv.OwnerT = fa.X.Type()
+			}
 			v = fv
 		}
 		fr.env[x] = v
@@ -1785,6 +1819,7 @@ func (vc *VC) fieldStoreEvent(st *State, fr *Frame, x *ssa.Store) {
 }
 
 func (vc *VC) fireEvent(st *State, fr *Frame, ev *Event, extra map[string]nameEntry, pos token.Pos) {
+	vc.eventFired[ev]++
 	defer func() {
 		if r := recover(); r != nil {
 			if se, ok := r.(specErr); ok {
@@ -1816,6 +1851,7 @@ func (vc *VC) fireEvent(st *State, fr *Frame, ev *Event, extra map[string]nameEn
 			}
 		}
 		if !found {
+			vc.eventFired[ev]--
 			return
 		}
 	}
@@ -1924,6 +1960,9 @@ func (vc *VC) mapEvent(st *State, fr *Frame, kind string, mapv ssa.Value, ref, k
 			vc.fireEvent(st, fr, ev, extra, pos)
 			continue
 		}
+		if ownerV == nil && vc.hasUnownedEvent(kind, full) {
+			continue
+		}
 		if ownerV == nil {
 			// a map of the same type as an event field, written without a resolvable owner in the event's package
 			if ft := vc.fieldType(full); ft != nil && types.Identical(ft, mapv.Type()) && fr.fn.Pkg != nil && fr.fn.Pkg.Pkg.Path() == ev.Pkg {
@@ -1942,6 +1981,42 @@ func (vc *VC) mapEvent(st *State, fr *Frame, kind string, mapv ssa.Value, ref, k
 		}
 	}
 	_ = matched
+	if ownerV == nil {
+		// "on insert_unowned T.f(m, k, v)": obligations for writes to a map of that type whose owner is not syntactically known
+		for _, ev := range vc.events {
+			if ev.Kind != kind+"_unowned" {
+				continue
+			}
+			full, err := vc.qualify(ev.Target, vc.pkgOf(ev.Pkg), 2)
+			if err != nil {
+				continue
+			}
+			ft := vc.fieldType(full)
+			if ft == nil || !types.Identical(ft, mapv.Type()) {
+				continue
+			}
+			extra := map[string]nameEntry{}
+			extra[ev.Vars[0]] = nameEntry{V: intv(ref), T: mapv.Type()}
+			if len(ev.Vars) > 1 {
+				extra[ev.Vars[1]] = nameEntry{V: Sc{key, vc.leaves(m.Key())[0].Sort}, T: m.Key()}
+			}
+			if len(ev.Vars) > 2 && val != nil {
+				extra[ev.Vars[2]] = nameEntry{V: val, T: m.Elem()}
+			}
+			vc.fireEvent(st, fr, ev, extra, pos)
+		}
+	}
+}
+
+func (vc *VC) hasUnownedEvent(kind, full string) bool {
+	for _, ev := range vc.events {
+		if ev.Kind == kind+"_unowned" {
+			if q, err := vc.qualify(ev.Target, vc.pkgOf(ev.Pkg), 2); err == nil && q == full {
+				return true
+			}
+		}
+	}
+	return false
 }
 
 func (vc *VC) fieldType(full string) types.Type {
@@ -2147,4 +2222,33 @@ func (vc *VC) canary(st *State, fr *Frame, group string, site token.Pos) {
 	vc.obls = saved
 	vc.canaries[name] = append(vc.canaries[name], o)
 	vc.canaryOrder = append(vc.canaryOrder, name)
+}
+
+// initGhost is kept for call sites that know the type; all ghost fields are initialised by newRef.
+func (vc *VC) initGhost(st *State, t types.Type, ref string) {}
+
+// initGhostAll gives every ghost field its default value at a freshly allocated reference.
+func (vc *VC) initGhostAll(st *State, ref string) {
+	var keys []string
+	for k := range vc.gfields {
+		keys = append(keys, k)
+	}
+	sort.Strings(keys)
+	for _, k := range keys {
+		g := vc.gfields[k]
+		s := ghostSort(g.GoTyp)
+		name := "G_" + strings.TrimSuffix(k, "."+g.Field) + "__" + g.Field
+		vc.arrSorts[name] = arrSort(SInt, s)
+		a := st.array(name, arrSort(SInt, s))
+		def := zeroOf(s)
+		if strings.HasPrefix(string(s), "(Array") {
+			def = "((as const " + string(s) + ") false)"
+			if strings.HasSuffix(string(s), "Int)") {
+				def = "((as const " + string(s) + ") 0)"
+			}
+		}
+		st.arr[name] = st.fresh(name, arrSort(SInt, s))
+		st.asm = append(st.asm, sEq(st.arr[name], sStore(a, ref, def)))
+		st.written[name] = true
+	}
 }
